@@ -116,12 +116,14 @@ def is_config_field(t):
 
 
 def strip_place(addr, val):
-    """The saved value must be a read of the same field through the first config_mut() borrow."""
-    # addr: (*config_mut(&self)@k).trim_text_start ; val: same shape with the entry call
+    """The saved value must be a read of the very field that is written back: either through the
+    config_mut() borrow taken at entry or (helper inlined) the same place of self."""
     if addr[0] == "pl" and val[0] == "pl" and fields_of(addr) == fields_of(val):
         a, v = addr[1], val[1]
         if a[0] == "call" and v[0] == "call" and a[2] == v[2]:
             return val if a[1] == v[1] else None
+        if a == v and addr[2] == val[2]:
+            return val
     return None
 
 
